@@ -1527,10 +1527,10 @@ class Compiler:
         elif isinstance(node, ObjectExpression):
             for prop in node.properties:
                 # Key
-                if isinstance(prop.key, Identifier):
+                if isinstance(prop.key, Identifier) and not prop.computed:
                     idx = self._add_constant(prop.key.name)
                     self._emit(OpCode.LOAD_CONST, idx)
-                    if prop.kind == "init" and not getattr(prop, "computed", False):
+                    if prop.kind == "init":
                         self._name_anonymous_function(prop.value, prop.key.name)
                 else:
                     self._compile_expression(prop.key)
